@@ -61,10 +61,11 @@ class ContractMixin:
                 ref = self.ev1(a.value, st)
                 if isinstance(ref.ty, TOpt):
                     ref = opt_inner(ref)
-                owner, fty = self.field_owner(ref.ty.cls, a.attr)
+                fname = self.real_field(ref.ty.cls, a.attr)
+                owner, fty = self.field_owner(ref.ty.cls, fname)
                 if owner is None:
                     raise Unsupported("modifies: unknown field %s" % a.attr, call)
-                ci.modifies.append((ref, owner, a.attr))
+                ci.modifies.append((ref, owner, fname))
         elif name == "modifies_all":
             for a in call.args:
                 ref = self.ev1(a, st)
